@@ -1258,6 +1258,7 @@ static int parse_single_cert(psPool_t *pool, const unsigned char **pp,
 #   endif
 #   ifndef ENABLE_SHA1_SIGNED_CERTS
         if (cert->subject.commonNameLen == cert->issuer.commonNameLen &&
+                cert->subject.commonNameLen > 0 &&
                 Memcmp(cert->subject.commonName,
                         cert->issuer.commonName,
                         cert->subject.commonNameLen))
